@@ -8,7 +8,7 @@ from vmc.ref.projects import TypeDef, EXTERNAL_ACCESS, type_name, hidden_symbol_
 from .harness import call
 
 META = {
-    "rule": "projects {P1 atoms, P2 structures, P3 scopes/system symbols, P4 scale} x personalities {v17, v20, v32, m800} x scopes "
+    "rule": "projects {P1 atoms, P2 structures, P3 scopes/system symbols, P4 scale} x personalities {v17, v18, v20, v21, v32, m800} (both sides of every firmware boundary) x scopes "
     "{controller only, '*', one program}; the controller's choices - entries per symbol page (every break point) and bytes per "
     "template fragment (a cut at every byte class of the definition) - are explored with iterative deviation bounding "
     "(bound 1 quick, 2 thorough), plus the forced modes one-entry-per-page and 1-/2-/3-byte template fragments. An execution "
@@ -24,7 +24,7 @@ META = {
     ],
 }
 PROJECTS = ("P1", "P2", "P3", "P4")
-PERS = ("v17", "v20", "v32", "m800")
+PERS = ("v17", "v18", "v20", "v21", "v32", "m800")
 SCOPES = ("ctl", "all", "prog")
 
 
